@@ -481,11 +481,13 @@ Lemma file_scope_flat_map : forall {A} f (g : A -> list component) l,
   file_scope f (flat_map g l) = flat_map (fun x => file_scope f (g x)) l.
 Proof. induction l as [|x l IH]; [reflexivity|]. cbn [flat_map]. now rewrite file_scope_app, IH. Qed.
 
-Lemma status_values_names : forall p l, map fst (status_values p l) = sp_enum_values p l.
+Lemma status_values_names_n : forall p l n0, map fst (status_values_n p l n0) = sp_enum_values_n p l n0.
 Proof.
-  intros p [|s r]; [reflexivity|]. cbn [status_values sp_enum_values].
-  destruct (has_suffix (bs "UNSPECIFIED") s); cbn [map fst]; rewrite number_from_names; reflexivity.
+  intros p [|s r] n0; [reflexivity|]. cbn [status_values_n sp_enum_values_n].
+  destruct (has_suffix (bs "UNSPECIFIED") s && (n0 =? 0)); cbn [map fst]; rewrite number_from_names; reflexivity.
 Qed.
+Lemma status_values_names : forall p l, map fst (status_values p l) = sp_enum_values p l.
+Proof. intros p l. apply status_values_names_n. Qed.
 
 Lemma file_scope_methods : forall f base name verb rel req resp sq,
   file_scope f (fst (method_components base name verb rel req resp sq)) =
@@ -572,8 +574,8 @@ Proof.
   2:{ intros s. unfold summary_components. now rewrite file_scope_topic. }
   rewrite !flat_map_nil. cbn [N.eqb Pos.eqb app].
   unfold sp_main_scope. cbn [file_scope flat_map keys_msg data_msg status_enum state_msg event_type_msg event_msg m_name N.eqb app].
-  unfold event_type_name. rewrite status_values_names, cn_keys, cn_data, cn_status, cn_state, cn_event_type, cn_event.
-  rewrite ?app_nil_r. unfold status_prefix, sp_status_prefix. rewrite <- ?app_assoc. reflexivity.
+  unfold event_type_name, entity_status_values. rewrite status_values_names_n, cn_keys, cn_data, cn_status, cn_state, cn_event_type, cn_event.
+  rewrite ?app_nil_r. unfold status_prefix, sp_status_prefix, sp_first_number, first_status_number. rewrite <- ?app_assoc. reflexivity.
 Qed.
 
 Theorem service_scope_eq : forall e fl, file_scope 1 (expand_with e fl) = sp_service_scope e.
